@@ -21,7 +21,7 @@ static sqfs_u32 strhash(const char *s)
 	sqfs_u32 a = 0;
 
 	while (*str != '\0') {
-		a += *str << 4;
+		a += (sqfs_u32)*str << 4;
 		a += *str >> 4;
 		a *= 11;
 		str++;
